@@ -238,10 +238,43 @@ func (bi *boxInterp) runFunc(f *ssa.Function, env boxEnv) (bool, bool) {
 	return bi.fail("%s: no result after 200 steps", f.Name())
 }
 
+// blockHasAppend: the block keeps an element — it appends, or calls a same-package function (a "keep" helper,
+// possibly a method of a generic carrier) whose body appends, followed two levels deep.
 func blockHasAppend(b *ssa.BasicBlock) bool {
 	for _, in := range b.Instrs {
-		if c, ok := in.(*ssa.Call); ok && ssau.Builtin(c) == "append" {
+		c, ok := in.(*ssa.Call)
+		if !ok {
+			continue
+		}
+		if ssau.Builtin(c) == "append" {
 			return true
+		}
+		if callee := c.Call.StaticCallee(); callee != nil && funcAppends(callee, b.Parent(), 0) {
+			return true
+		}
+	}
+	return false
+}
+
+func funcAppends(f, from *ssa.Function, depth int) bool {
+	if o := f.Origin(); o != nil {
+		f = o
+	}
+	if depth > 2 || len(f.Blocks) == 0 || f.Pkg == nil || from.Pkg == nil || f.Pkg != from.Pkg {
+		return false
+	}
+	for _, b := range f.Blocks {
+		for _, in := range b.Instrs {
+			c, ok := in.(*ssa.Call)
+			if !ok {
+				continue
+			}
+			if ssau.Builtin(c) == "append" {
+				return true
+			}
+			if callee := c.Call.StaticCallee(); callee != nil && funcAppends(callee, from, depth+1) {
+				return true
+			}
 		}
 	}
 	return false
